@@ -1,7 +1,12 @@
 /-
-  C10 — branch rollback is idempotent and blocks a late phase one.  (theorems being added)
+  C10 — branch rollback is idempotent and blocks a late phase one.
+
+  `rollbackBranch` is one delivery of BranchRollback (AT/World.lean); `rollbackBranchFaulted` a
+  delivery during which a database statement fails (the harness injects a failure at EVERY statement
+  index of the real rollback transaction and checks that the real code behaves like it: nothing
+  changes, not answered "rollbacked").
 -/
-import SeataModel.AT.Phase1
+import SeataModel.AT.World
 namespace Seata.Props.C10
 open Seata Seata.DB Seata.AT
 
@@ -11,5 +16,136 @@ theorem C10_failed_attempt_changes_nothing (sc : Schema) (cfg : Cfg) (t : Table)
   unfold undoBranch at *
   generalize undoFold sc cfg t b.items.reverse = r at h ⊢
   cases hr : r.2 <;> simp [hr] at h ⊢
+
+/-- a delivery that is not answered "rollbacked" leaves the whole world (table, undo logs, markers)
+    as it was: no partial compensation -/
+theorem C10_failed_delivery_changes_nothing (sc : Schema) (cfg : Cfg) (w : World) (i : Nat)
+    (h : (rollbackBranch sc cfg w i).2 = false) : (rollbackBranch sc cfg w i).1 = w := by
+  unfold rollbackBranch at *
+  split at h
+  · rfl
+  · rename_i bs hb
+    by_cases hl : bs.hasLog = true
+    · simp only [hl, Bool.not_true, Bool.false_eq_true, if_false] at h ⊢
+      by_cases hr : (undoBranch sc cfg w.t bs.b).2 = true
+      · simp [hr] at h
+      · simp [hr]
+    · simp [hl] at h
+
+/-- a faulted delivery followed by a clean one is the clean one -/
+theorem C10_retry_after_fault (sc : Schema) (cfg : Cfg) (w : World) (i : Nat) :
+    rollbackBranch sc cfg (rollbackBranchFaulted w).1 i = rollbackBranch sc cfg w i ∧
+    (rollbackBranchFaulted w).2 = false := ⟨rfl, rfl⟩
+
+/-- after a delivery answered "rollbacked" the branch has no undo log any more -/
+theorem rolledBack_noLog (sc : Schema) (cfg : Cfg) (w : World) (i : Nat)
+    (h : (rollbackBranch sc cfg w i).2 = true) :
+    ∃ bs, (rollbackBranch sc cfg w i).1.branches[i]? = some bs ∧ bs.hasLog = false := by
+  unfold rollbackBranch at *
+  split at h
+  · cases h
+  · rename_i bs hb
+    have hlen : i < w.branches.length := by
+      rcases Nat.lt_or_ge i w.branches.length with hlt | hge
+      · exact hlt
+      · rw [List.getElem?_eq_none hge] at hb; cases hb
+    by_cases hl : bs.hasLog = true
+    · simp only [hl, Bool.not_true, Bool.false_eq_true, if_false] at h ⊢
+      by_cases hr : (undoBranch sc cfg w.t bs.b).2 = true
+      · simp only [hr, if_true]
+        exact ⟨{ bs with hasLog := false }, by simp [hlen], rfl⟩
+      · simp [hr] at h
+    · have hl' : bs.hasLog = false := by cases hh : bs.hasLog <;> simp_all
+      simp only [hl', Bool.not_false, if_true]
+      exact ⟨{ bs with marker := true }, by simp [hlen, hl'], hl'⟩
+
+/-- **C10 (idempotence)**: once a delivery has been answered "rollbacked", every further delivery for
+    that branch is answered "rollbacked" again and changes neither the table nor any undo log. -/
+theorem C10_idempotent (sc : Schema) (cfg : Cfg) (w : World) (i : Nat)
+    (h : (rollbackBranch sc cfg w i).2 = true) :
+    let w1 := (rollbackBranch sc cfg w i).1
+    (rollbackBranch sc cfg w1 i).2 = true ∧
+    (rollbackBranch sc cfg w1 i).1.t = w1.t ∧
+    (rollbackBranch sc cfg w1 i).1.branches.map (·.hasLog) = w1.branches.map (·.hasLog) := by
+  intro w1
+  obtain ⟨bs, hb, hl⟩ := rolledBack_noLog sc cfg w i h
+  have hb1 : w1.branches[i]? = some bs := hb
+  unfold rollbackBranch
+  simp only [hb1, hl, Bool.not_false, if_true]
+  refine ⟨trivial, trivial, ?_⟩
+  have hlen : i < w1.branches.length := by
+    rcases Nat.lt_or_ge i w1.branches.length with hlt | hge
+    · exact hlt
+    · rw [List.getElem?_eq_none hge] at hb1; cases hb1
+  apply List.ext_getElem?
+  intro j
+  simp only [List.getElem?_map, List.getElem?_set]
+  by_cases hij : i = j
+  · subst hij
+    have hget := (List.getElem?_eq_some_iff.mp hb1).2
+    simp [hlen, hget, hl]
+  · simp [hij]
+
+/-- any number of repeated deliveries after the first successful one -/
+theorem C10_repeated (sc : Schema) (cfg : Cfg) (w : World) (i : Nat) (n : Nat)
+    (h : (rollbackBranch sc cfg w i).2 = true) :
+    let again := fun (w : World) => (rollbackBranch sc cfg w i).1
+    (rollbackBranch sc cfg (Nat.repeat again n (rollbackBranch sc cfg w i).1) i).2 = true ∧
+    (Nat.repeat again n (rollbackBranch sc cfg w i).1).t = (rollbackBranch sc cfg w i).1.t := by
+  intro again
+  have key : ∀ n, ∃ Y, (rollbackBranch sc cfg Y i).2 = true ∧
+      Nat.repeat again n (rollbackBranch sc cfg w i).1 = (rollbackBranch sc cfg Y i).1 ∧
+      (Nat.repeat again n (rollbackBranch sc cfg w i).1).t = (rollbackBranch sc cfg w i).1.t := by
+    intro n
+    induction n with
+    | zero => exact ⟨w, h, rfl, rfl⟩
+    | succ k ih =>
+      obtain ⟨Y, hY, hX, ht⟩ := ih
+      have idem := C10_idempotent sc cfg Y i hY
+      refine ⟨Nat.repeat again k (rollbackBranch sc cfg w i).1, ?_, rfl, ?_⟩
+      · rw [hX]; exact idem.1
+      · show (rollbackBranch sc cfg (Nat.repeat again k (rollbackBranch sc cfg w i).1) i).1.t = _
+        rw [← ht, hX]; exact idem.2.1
+  obtain ⟨Y, hY, hX, ht⟩ := key n
+  refine ⟨?_, ht⟩
+  rw [hX]; exact (C10_idempotent sc cfg Y i hY).1
+
+/-- **C10 (late phase one)**: a rollback that arrives between a branch's registration and its undo-log
+    flush leaves a marker; the late local transaction then commits nothing — the table is as before —
+    unless it had nothing to log at all, and a further rollback of that branch is answered
+    "rollbacked" without touching the table. -/
+theorem C10_marker_blocks_late_commit (sc : Schema) (cfg : Cfg) (w : World) (ltx : LocalTx)
+    (w' : World) (committed : Bool)
+    (h : earlyRollbackThenCommit sc cfg w ltx = some (w', committed)) :
+    w'.t = w.t ∧
+    (∃ bs, w'.branches = w.branches ++ [bs] ∧ bs.marker = true ∧ bs.hasLog = false) ∧
+    (committed = true → ∃ t' b, localPhase1 sc cfg w.t ltx = .ok (t', b) ∧ b.items = []) ∧
+    (rollbackBranch sc cfg w' w.branches.length).2 = true ∧
+    (rollbackBranch sc cfg w' w.branches.length).1.t = w.t := by
+  unfold earlyRollbackThenCommit at h
+  split at h
+  · cases h
+  · rename_i t1 b hp
+    simp only [Option.some.injEq, Prod.mk.injEq] at h
+    obtain ⟨hw, hc⟩ := h
+    subst hw
+    refine ⟨rfl, ⟨_, rfl, rfl, rfl⟩, ?_, ?_, ?_⟩
+    · intro hcm
+      refine ⟨t1, b, hp, ?_⟩
+      rw [← hc] at hcm
+      simpa using hcm
+    · simp [rollbackBranch]
+    · simp [rollbackBranch]
+
+/-! ### non-vacuity -/
+
+def sc1 : Schema := { ncols := 2, pk := [0] }
+def w0 : World := { t := [[.int 1, .int 10]] }
+def ltx1 : LocalTx := [(.update [(1, .val (.lit (.int 11)))] .tt, [])]
+
+example : ∃ w1, runLocalTx sc1 ⟨true, false⟩ w0 ltx1 = some w1 ∧
+    (rollbackBranch sc1 ⟨true, false⟩ w1 0).2 = true ∧ (rollbackBranch sc1 ⟨true, false⟩ w1 0).1.t = w0.t := by
+  refine ⟨_, rfl, ?_, ?_⟩ <;> decide
+example : ∃ w', earlyRollbackThenCommit sc1 ⟨true, false⟩ w0 ltx1 = some (w', false) := ⟨_, rfl⟩
 
 end Seata.Props.C10
